@@ -177,23 +177,27 @@ def _(self):
     properties('C14')
     requires(self.yaml_node.kind == SCALAR)
     result_sort('PV')
-    # code-level contract in terms of Python's own int()/float(); the
-    # language obligations of C14 tie their domains to what a load constructs
+    # "what a load would construct": PyYAML's own scalar constructors
+    # (E-CONSTRUCT); outside their domain they raise like a load would
     raises(ValueError, when=(self.yaml_node.tag == INT_TAG
-                             and not int_dom(self.yaml_node.val))
+                             and not yaml_int_dom(self.yaml_node.val))
            or (self.yaml_node.tag == FLOAT_TAG
-               and not float_dom(self.yaml_node.val)))
+               and not yaml_float_dom(self.yaml_node.val)))
+    raises(KeyError, when=self.yaml_node.tag == BOOL_TAG
+           and not yaml_bool_dom(self.yaml_node.val))
     raises(RuntimeError, when=not has_scalar_core_tag(self.yaml_node))
     ensures(implies(self.yaml_node.tag == STR_TAG,
                     result == mk_pv_str(self.yaml_node.val)))
-    ensures(implies(self.yaml_node.tag == INT_TAG, int_dom(self.yaml_node.val)
-                    and result == mk_pv_int(int_of_str(self.yaml_node.val))))
+    ensures(implies(self.yaml_node.tag == INT_TAG,
+                    yaml_int_dom(self.yaml_node.val)
+                    and result == mk_pv_int(yaml_int(self.yaml_node.val))))
     ensures(implies(self.yaml_node.tag == FLOAT_TAG,
-                    float_dom(self.yaml_node.val) and result == mk_pv_float(
-                        float_of_str(self.yaml_node.val))))
-    ensures(implies(self.yaml_node.tag == BOOL_TAG, result == mk_pv_bool(
-        self.yaml_node.val == 'true' or self.yaml_node.val == 'True'
-        or self.yaml_node.val == 'TRUE')))
+                    yaml_float_dom(self.yaml_node.val)
+                    and result == mk_pv_float(
+                        yaml_float(self.yaml_node.val))))
+    ensures(implies(self.yaml_node.tag == BOOL_TAG,
+                    yaml_bool_dom(self.yaml_node.val)
+                    and result == mk_pv_bool(yaml_bool(self.yaml_node.val))))
     ensures(implies(self.yaml_node.tag == NULL_TAG, pv_is_none(result)))
     ensures(has_scalar_core_tag(self.yaml_node))
 
